@@ -464,3 +464,29 @@ PROPS["C19"] = dict(
         "the pending-handler count is read through an accessor injected by build overlay (tag vfhook, /verif/hooks); if the ack table is renamed that sub-check stops building and the check reports inconclusive",
     ],
 )
+
+PROPS["C20"] = dict(
+    title="Lifecycle safety: Leave/Shutdown and the query API in any order and interleaving",
+    pkg="./props/c20",
+    level="exploration",
+    journal=True,
+    technique="property-based testing (rapid) of generated call histories in virtual time, plus a real-time concurrent variant, both also under the race detector",
+    rule=("a real subject node with 0-3 real peers (optionally on a lossy network), all tickers on, GossipToTheDeadTime 0.5/2 s; 1-7 groups of 1-4 public API "
+          "calls (Join, Leave(5/60 ms), Shutdown, Members, NumMembers, LocalNode, UpdateNode, SendBestEffort, SendReliable, Ping, GetHealthScore, "
+          "ProtocolVersion) released from separate goroutines at the same virtual instant with micro-delays of 0-2 ms, groups separated by 0-9 s (so that every "
+          "stage created/joined/leaving/left/left-and-reaped/shut down is visited); the excluded orderings are Leave started after Shutdown returned and, in "
+          "virtual time only, two overlapping Leave calls. Oracle: no call panics, every call returns within its documented wait (Leave within timeout + 1 ms), "
+          "repeated Shutdown returns nil, after Shutdown returns no packet, stream write or dial of the node reaches the network and attempts on the closed "
+          "transport stop within one awareness-scaled probe interval, and the bubble exits (no goroutine of the node left) after that drain period. The "
+          "real-time variant releases 2-6 calls (incl. Leave || Leave, Shutdown || Shutdown, UpdateNode || UpdateNode) truly concurrently with 40 ms probe "
+          "intervals; both variants also run under the race detector. non-trivial = a concurrent group of >= 2 calls or a call at the left-and-reaped stage"),
+    tests=[
+        dict(name="life", run="^TestLifecycle$", quick=dict(shards=10, checks=120, timeout=600), thorough=dict(shards=10, checks=5000, timeout=3400)),
+        dict(name="life-race", run="^TestLifecycle$", race=True, quick=dict(shards=3, checks=25, timeout=900), thorough=dict(shards=3, checks=800, timeout=3400)),
+        dict(name="rt-race", run="^TestLifecycleRealtime$", race=True, quick=dict(shards=3, checks=40, timeout=900), thorough=dict(shards=3, checks=1500, timeout=3400)),
+    ],
+    assumptions=CLUSTER_ASSUMPTIONS + [
+        "a group that does not return within 60 s of real time (each call is bounded by 0.2 s) is reported as a deadlock",
+        "data races are reported by the Go race detector only on interleavings that occurred",
+    ],
+)
